@@ -42,10 +42,113 @@ def loop_head_for(body, inner_bb):
     return hs[0] if hs else None
 
 
+def _body(prog, ident):
+    try:
+        return prog.body(ident)
+    except KeyError:
+        return None
+
+
+def _captures(prog, closure):
+    """(enclosing body, variable-level origin trees of what `closure` captures, in capture order) — read off the closure's construction
+    site in the enclosing body."""
+    parent = prog.bodies.get(closure.parent) if closure is not None and closure.parent else None
+    if parent is None:
+        return None, []
+    ov = flow.Origin(parent, stop_at_vars=True)
+    for blk in parent.blocks:
+        for s in blk['s']:
+            rv = s.get('rv')
+            if rv and rv['k'] == 'agg' and rv.get('ak') == 'closure' and rv.get('def') == closure.id:
+                return parent, [ov.of_operand(o) for o in rv['ops']]
+    return parent, []
+
+
+def _cap_index(tree):
+    """capture number of an origin tree that is a capture of the body it was computed in (`cap:x`), else None"""
+    if tree[0] == 'field' and isinstance(tree[2], str) and tree[2].startswith('^') and tree[1][0] == 'arg' and tree[1][1] == 1:
+        m = re.match(r'^\^(\d+):', tree[2])
+        return int(m.group(1)) if m else None
+    return None
+
+
+def cap_of(prog, closure, local, default):
+    """How `closure` renders the capture of variable `local` of its enclosing body.  A capture carries the SOURCE name of the captured variable
+    (`cap:<name>`), so a rename of that variable renames the capture: find the capture by position at the construction site instead.
+    `default` (the historical name) when the variable is not known or not captured."""
+    if local is None:
+        return default
+    parent, trees = _captures(prog, closure)
+    for i, t in enumerate(trees):
+        while t[0] in ('field', 'downcast', 'index') and _cap_index(t) is None:
+            t = t[1]
+        if t[0] == 'var' and t[1] == local:
+            for v in closure.vars:
+                for e in v['pl'].get('p', []):
+                    if isinstance(e, str) and e.startswith('^%d:' % i):
+                        return e.split(':', 1)[1]
+    return default
+
+
+def capture_source(prog, closure, idx, depth=4):
+    """Rendering, in the body that owns the variable, of what capture `idx` of `closure` captures (followed outwards through enclosing closures that
+    merely pass their own capture on); '' when it cannot be resolved."""
+    parent, trees = _captures(prog, closure)
+    if parent is None or idx is None or idx >= len(trees):
+        return ''
+    t = trees[idx]
+    j = _cap_index(t)
+    if j is not None and depth > 0:
+        return capture_source(prog, parent, j, depth - 1)
+    return flow.render(t)
+
+
+def bind_roles(prog):
+    """The locals of /repo these rules talk about, found by what they ARE (type, defining callee / field, how they are used) and made to render under
+    the role name, so that a rename in /repo changes nothing here (util.bind_role; a role that is not found leaves the name-based behaviour).
+    Must run before any Origin of these bodies is built.  Returns {(function, role): local} for the roles the rules address by local number
+    (their role name differs from the source name because a later `let` shadows it under the same name)."""
+    R = {}
+    rb = _body(prog, 'RestoreManager::restore_from_backup_with_options')
+    pit = _body(prog, 'RestoreManager::restore_point_in_time_with_options')
+    meta = r'(?:\w+::)*BackupMetadata'
+    uuid = r'(?:\w+::)*Uuid'
+    for f in (rb, pit):
+        # the (id, archive path) pairs recorded by the verification and consumed by the extraction
+        util.bind_role(f, 'verified_archives', type_rx=r'Vec<\(%s, (?:\w+::)*PathBuf\)>$' % uuid, used_as=(r'Vec(<.*>)?::push$', 0))
+    # restore by id: what is restored is either the requested backup alone or the ancestry chain built in another variable
+    util.bind_role(rb, 'restore_chain', type_rx=r'Vec<%s>$' % meta, origin_rx=r'^phi\(.* \| var:\w+\)$')
+    # .. and the walk follows the Some payload of the current element's parent link
+    util.bind_role(rb, 'parent_id', type_rx=r'^%s$' % uuid, origin_rx=r'^var:\w+→BackupMetadata\.parent_id@Some→Some\.0$')
+    # point in time: the hops collected (by reference), the hop candidate produced by a search over the list, the id the walk stands on,
+    # the slot that receives the base
+    util.bind_role(pit, 'incrementals', type_rx=r'Vec<&%s>$' % meta, used_as=(r'Vec(<.*>)?::push$', 0))
+    util.bind_role(pit, 'next', type_rx=r'^core::option::Option<&%s>$' % meta, assigned_from=r'Iterator>?::\w+$')
+    R['pit', 'current_id'] = util.bind_role(pit, 'current_id', type_rx=r'^%s$' % uuid, origin_rx=r'^phi\(\S+→BackupMetadata\.id \| \S+→BackupMetadata\.id\)$')
+    R['pit', 'base'] = util.bind_role(pit, 'base_slot', type_rx=r'^core::option::Option<&%s>$' % meta,
+                                      origin_rx=r'^phi\(option::Option::None\{\} \| option::Option::Some\{.*\}\)$')
+    # clear: the boolean read from the environment
+    util.bind_role(_body(prog, 'RestoreManager::clear_data_directory'), 'env_confirm', type_rx=r'^bool$', origin_rx=r'env::var\(', full=True)
+    # verify: the checksum recomputed from the archive
+    util.bind_role(_body(prog, 'RestoreManager::verify_backup_archive'), 'computed_checksum', type_rx=r'^u32$', assigned_from=r'backup::compute_backup_checksum')
+    # prune: the set whose membership spares a backup
+    util.bind_role(_body(prog, 'BackupManager::prune_backups'), 'to_keep', type_rx=r'HashSet<%s>$' % uuid, used_as=(r'HashSet(<.*>)?::contains$', 0))
+    inc = _body(prog, 'BackupManager::create_incremental_backup')
+    for nm, f in (('full', _body(prog, 'BackupManager::create_full_backup')), ('inc', inc)):
+        # the slot that receives the checksum of the archive written, and the snapshot name recorded in the metadata
+        R[nm, 'checksum'] = util.bind_role(f, 'checksum_slot', type_rx=r'^core::option::Option<u32>$', origin_rx=r'write_backup_archive\(', full=True)
+        util.bind_role(f, 'snapshot_file', type_rx=r'^core::option::Option<(?:\w+::)*String>$', origin_rx=r'Manifest\.latest_snapshot', full=True)
+    # incremental: the parent's decoded metadata, its highest segment id, the "modified since the parent" test
+    R['inc', 'parent_metadata'] = util.bind_role(inc, 'parent_metadata', type_rx=r'^%s$' % meta, assigned_from=r'(?:serde_json::)?de::from_str')
+    R['inc', 'parent_max'] = util.bind_role(inc, 'parent_max', type_rx=r'^u64$', origin_rx=r'→BackupMetadata\.max_wal_file_id@Some→Some\.0$', full=True)
+    return R
+
+
 def run(ctx, prog):
     ctx.not_decided = ['equality of the restored collection with the collection at backup time',
                        'detection of metadata (.json) edits other than through the archive checksum']
     eff = Effects(prog)
+    roles = bind_roles(prog)
     # ------------------------------------------------------------------ R1
     ctx.rule('C12.R1', 'verify before clear: in both restore entry points every iteration of the verification loop crosses the success '
                        'edge of verify_backup_archive, clear_data_directory is reached only through that loop\'s exit, extraction happens only '
@@ -222,7 +325,17 @@ def run(ctx, prog):
     pv = flow.Origin(pb, stop_at_vars=True)
     pf = flow.Origin(pb)
     keep_ins = [c for c in pb.calls if c.callee and re.search(r'HashSet<.*>::insert$|HashSet::insert$', c.callee) and c.args and flow.render(pv.of_operand(c.args[0])) == 'var:to_keep']
-    parent_ins = [c for c in keep_ins if re.search(r'parent', flow.render(pv.of_operand(c.args[1]))) or 'parent_of' in flow.render(pf.of_operand(c.args[1]))]
+    def from_parent_link(r):
+        # structurally (no variable name involved): the inserted value is a parent_id, or comes out of a collection built by a closure of this function that reads parent_id
+        if 'BackupMetadata.parent_id' in r:
+            return True
+        for m in re.findall(r'closure:((?:\w+::)*\{closure#\d+\}(?:::\{closure#\d+\})*)', r):
+            for b in fam:
+                if b.kind == 'Closure' and b.id.endswith('::' + m) and any('BackupMetadata.parent_id' in str(s.get('rv', '')) for blk in b.blocks for s in blk['s']):
+                    return True
+        return False
+    parent_ins = [c for c in keep_ins if re.search(r'parent', flow.render(pv.of_operand(c.args[1]))) or 'parent_of' in flow.render(pf.of_operand(c.args[1]))
+                  or from_parent_link(flow.render(pf.of_operand(c.args[1])))]
     ctx.inst('C12.R4', pb.short, 'keep set closed under parent_id', reads_parent and bool(parent_ins),
              ('prune_backups never reads BackupMetadata.parent_id: a full backup can be removed while an incremental that depends on it is kept '
               '(restore then fails with "Parent backup … not found")') if not reads_parent else
@@ -234,13 +347,24 @@ def run(ctx, prog):
         ctx.inst('C12.R4', pb.short, 'parent retention is transitive (whole chain)', cyc, 'parent insertion inside a loop: %s' % cyc)
     rms = [c.bb for c in pb.calls_to('std::fs::remove_file')]
     notkeep, old = [], []
+    full_preds = [(i, tg, p) for i, blk in enumerate(pb.blocks) if blk['t']['k'] == 'switch' and i in pb.live_blocks() for tg, p in flow.switch_edge_predicates(pb, i, pf)]
+    elem = r"Iterator>::next\((?:slice::iter\()?BackupManager::list_backups\(arg:self\)@Continue→Continue\.0\)?\)@Some→Some\.0"
+    # the age test, by what is compared (fully expanded: now − element.timestamp against policy.min_age_days × constant), whatever the locals are called and
+    # whether or not they exist; the variable-level form by name is kept beside it
+    age_f = r'num::saturating_sub\(Duration::as_secs\([^|]*SystemTime::now\(\)[^|]*\), [^|]*' + elem + r'→BackupMetadata\.timestamp\)'
+    min_f = r'\(arg:policy→RetentionPolicy\.min_age_days MulWithOverflow \d+\)(?:\.0)?'
+
+    def not_young(a, m, p):
+        return bool(re.match('^!' + flow.cmp_rx(a, m, '<=', -1)[1:-1] + '$', p) or re.match(flow.cmp_rx(a, m, '>=', 0), p))
     for i, blk in enumerate(pb.blocks):
         if blk['t']['k'] == 'switch':
             for tg, p in flow.switch_edge_predicates(pb, i, pv):
                 if re.match(r'^!bool\[HashSet::contains\(var:to_keep, .*BackupMetadata\.id\)\]$', p):
                     notkeep.append((i, tg))
-                if re.match('^!' + flow.cmp_rx(r'var:age', r'var:min_age_seconds', '<=', -1)[1:-1] + '$', p) or re.match(flow.cmp_rx(r'var:age', r'var:min_age_seconds', '>=', 0), p):
+                if not_young(r'var:age', r'var:min_age_seconds', p):
                     old.append((i, tg))
+    if not old:
+        old = [(i, tg) for i, tg, p in full_preds if not_young(age_f, min_f, p)]
     for nm, es in (('¬to_keep.contains(id)', notkeep), ('age ≥ min_age_seconds', old)):
         r = pb.reach([0], avoid_edges=es)
         ctx.inst('C12.R4', pb.short, 'unlink only past ' + nm, bool(es) and bool(rms) and not any(x in r for x in rms),
@@ -249,8 +373,6 @@ def run(ctx, prog):
     # backup INTO the keep set before the parent closure ran — otherwise it survives while its parent chain is pruned
     if rms:
         rm0 = min(rms)
-        full_preds = [(i, tg, p) for i, blk in enumerate(pb.blocks) if blk['t']['k'] == 'switch' and i in pb.live_blocks() for tg, p in flow.switch_edge_predicates(pb, i, pf)]
-        elem = r"Iterator>::next\((?:slice::iter\()?BackupManager::list_backups\(arg:self\)@Continue→Continue\.0\)?\)@Some→Some\.0"
         must = [p for i, tg, p in full_preds if rm0 not in pb.reach([0], avoid_edges=[(i, tg)]) and re.search(elem + r'→BackupMetadata\.(?!id\b)\w+', p)
                 and 'HashSet::contains' not in p and 'Path::exists' not in p]
         closure_src = [c for c in pb.calls if c.callee and re.search(r'HashSet<.*>::iter$|HashSet::iter$', flow.short(c.callee)) and flow.render(pv.of_operand(c.args[0], 0, frozenset({-1}))) == 'var:to_keep']
@@ -295,9 +417,11 @@ def run(ctx, prog):
         v_succ = eff.success_edges(f, eff.blocks(f, 'verify'))
         r = f.reach([0], avoid_edges=v_succ)
         # the retry loop records `checksum = Some(..)` only on the verified edge and the code after the loop unwraps it
-        ck = f.var_local('checksum')
+        # (the slot is found as the Option that receives write_backup_archive's result — bind_roles; by its name only when that fails)
+        l_ck = roles.get(('inc' if fn.endswith('create_incremental_backup') else 'full', 'checksum'))
+        ck = [l_ck] if l_ck is not None else f.var_local('checksum')
         sets = [d[0] for l_ in ck for d in f.defs.get(l_, []) if d[2] == 'assign' and 'Some' in flow.render(fv.of_rvalue(d[3]['rv'], 0, frozenset()))]
-        exp = [c.bb for c in f.calls if c.is_('core::option::Option::expect', 'core::option::Option::unwrap') and c.args and flow.render(fv.of_operand(c.args[0])) == 'var:checksum']
+        exp = [c.bb for c in f.calls if c.is_('core::option::Option::expect', 'core::option::Option::unwrap') and c.args and fv.of_operand(c.args[0])[0] == 'var' and fv.of_operand(c.args[0])[1] in ck]
         okm = bool(mw) and bool(sets) and all(b_ not in r for b_ in sets) and bool(exp) and all(any(f.dominates(e_, c.bb) for e_ in exp) for c in mw)
         ctx.inst('C12.R5', f.short, 'metadata written only after source verification succeeded', okm,
                  'checksum=Some(..) only past verify success: %s; metadata write dominated by checksum.expect(): %s' % (bool(sets) and all(b_ not in r for b_ in sets), bool(exp)))
